@@ -926,6 +926,9 @@ class MarkFeatureWriter(BaseFeatureWriter):
         prefix="ContextualMark",
     ):
         for anchorKey, statements in attachments.items():
+            if anchorKey not in self.context.markClasses:
+                # no mark glyph attaches to this anchor: nothing to position
+                continue
             # First make the contextual lookup
             if ";" in fullcontext:
                 before, after = fullcontext.split(";")
